@@ -27,16 +27,24 @@ class HarnessBudget(BaseException):
 
 
 class Lock:
-    """serialise lake invocations (several checks may run at once)"""
+    """serialise lake invocations (several checks may run at once); re-entrant within a process, so that a check can hold it from
+    the regeneration of its generated files to the end of its build (another check's fallback to pinned copies cannot interleave)"""
+    _depth = 0
+    _f = None
 
     def __enter__(self):
-        self.f = open(os.path.join(LEAN, '.lake.lock.verif'), 'w')
-        fcntl.flock(self.f, fcntl.LOCK_EX)
+        if Lock._depth == 0:
+            Lock._f = open(os.path.join(LEAN, '.lake.lock.verif'), 'w')
+            fcntl.flock(Lock._f, fcntl.LOCK_EX)
+        Lock._depth += 1
         return self
 
     def __exit__(self, *a):
-        fcntl.flock(self.f, fcntl.LOCK_UN)
-        self.f.close()
+        Lock._depth -= 1
+        if Lock._depth == 0:
+            fcntl.flock(Lock._f, fcntl.LOCK_UN)
+            Lock._f.close()
+            Lock._f = None
 
 
 def sh(cmd, cwd=None, timeout=3600, env=None):
@@ -108,12 +116,40 @@ def audit(prop, extra_modules=()):
         if mod.startswith('OnlVerif.Props.'):
             thms = thms + [t for t in theorems_of(mod) if t not in thms]
     res['theorems'] = thms
-    ok, log = lake_build([f'OnlVerif.Props.{prop}'] + list(extra_modules) + ['driver'])
+    targets = [f'OnlVerif.Props.{prop}'] + list(extra_modules) + ['driver']
+    ok, log = lake_build(targets)
+    if not ok:
+        # A generated file this property does not own may be in the way (py2lean/scope.py): it was left ill-typed by the check
+        # that owns it, or hand-written code depending on it no longer compiles against the changed source.  That is the owner's
+        # obligation, not ours: fall back to the pinned translation of every such file and build again.
+        try:
+            from py2lean import scope
+            mods = [t if t != 'driver' else 'Driver' for t in targets]
+            restored = scope.restore_foreign(prop, mods)
+            if restored:
+                res['foreign_generated_restored_to_pinned'] = restored
+                ok2, log2 = lake_build(targets)
+                res['first_build_errors'] = [l for l in log.splitlines() if l.startswith('error:')][:6]
+                ok, log = ok2, log2
+        except ImportError:
+            pass
     res['build_ok'] = ok
     res['log'] = log[-6000:]
     # the `error:` lines of the whole log (file:line of the first broken declaration; the tail alone may hold only goal dumps)
     res['error_lines'] = [l for l in log.splitlines() if l.startswith('error:')][:12]
     if not ok:
+        # the obligation is broken and will be reported; if what broke is this property's own generated driver dependency, the
+        # harness still gets a driver (built with the pinned translation) to run its direct oracles against
+        try:
+            from py2lean import scope
+            okd, _ = lake_build(['driver'])
+            if not okd:
+                own = scope.restore_own_driver_deps(prop)
+                if own:
+                    okd, _ = lake_build(['driver'])
+                    res['own_driver_dependency_restored_to_pinned'] = {'stems': own, 'driver_built': okd}
+        except ImportError:
+            pass
         return res
     res['forbidden'] = forbidden_hits()
     tmp = os.path.join(LEAN, f'.audit_{prop}_{os.getpid()}.lean')
@@ -189,12 +225,13 @@ def run_check(prop, tier, seed, replay=None):
     # ---- 1. proof obligations ------------------------------------------------------------------
     pre = getattr(mod, 'prepare', None)
     prep_err = None
-    if pre:
-        try:
-            pre(ctx)
-        except Exception as x:
-            prep_err = f'translator/preparation failed: {x!r}'
-    au = audit(prop, getattr(mod, 'EXTRA_MODULES', ()))
+    with Lock():          # regeneration and build are one step with respect to other checks running in this tree
+        if pre:
+            try:
+                pre(ctx)
+            except Exception as x:
+                prep_err = f'translator/preparation failed: {x!r}'
+        au = audit(prop, getattr(mod, 'EXTRA_MODULES', ()))
     obligations = len(au['theorems'])
     discharged = 0
     proof_problems = []
@@ -220,6 +257,34 @@ def run_check(prop, tier, seed, replay=None):
         checker_cmd += f' && lake env leanchecker OnlVerif.Props.{prop}'
         if not ok:
             proof_problems.append('leanchecker rejected the compiled module: ' + out[-500:])
+
+    # A generated file this property only *uses* (py2lean/scope.py: C16 runs the window rules that C17 owns) was put back to its
+    # pinned translation so that the proofs build.  The replay, however, should run the model with the rules as they are in the
+    # source - that they agree with the pinned ones is the owner's bridge, and a disagreement about them is the owner's to report:
+    # regenerate the used file and rebuild the driver alone (the proofs above were built and audited before this point).
+    used_back = []
+    try:
+        from py2lean import scope as _scope
+        used_back = [s_ for s_ in (au.get('foreign_generated_restored_to_pinned') or []) if prop in _scope.USERS.get(s_, ())]
+    except ImportError:
+        pass
+    if au['build_ok'] and used_back:
+        with Lock():
+            from py2lean import translate as _tr
+            note = {'stems': used_back}
+            try:
+                _tr.regenerate_all(only=tuple(used_back), tolerate=True)
+                okd, _ = lake_build(['driver'])
+                note['driver_runs_the_rules_of_the_source'] = okd
+                if not okd:
+                    _scope.restore_pinned(used_back)
+                    okd, _ = lake_build(['driver'])
+                    note['driver_rebuilt_with_pinned'] = okd
+            except Exception as x:
+                note['error'] = repr(x)
+                _scope.restore_pinned(used_back)
+                lake_build(['driver'])
+            au['used_generated_after_proofs'] = note
 
     # ---- 2. correspondence + oracle ------------------------------------------------------------
     result = {}
@@ -303,6 +368,9 @@ def run_check(prop, tier, seed, replay=None):
     cov['oracle_failures'] = len(oracle_failures)
     cov['known_findings_reported'] = sorted(reported_known)
     cov['proof_problems'] = proof_problems
+    for k in ('foreign_generated_restored_to_pinned', 'first_build_errors', 'own_driver_dependency_restored_to_pinned', 'used_generated_after_proofs'):
+        if au.get(k):
+            cov[k] = au[k]
     cov['notes'] = notes
     ev = {
         'property_id': prop, 'tier': tier, 'seed': seed, 'level': 'proof', 'coverage': cov,
